@@ -4,17 +4,23 @@ CLAIMED = {
  "C01": dict(engine="wire-sim", ref="DESIGN.md 3 C01", technique="deterministic simulation: seeded delivery/fragmentation schedules of generated pipelined request streams against the real server loop, ground-truth oracle + deadlock detection",
    text="Seeded exploration of generated request sequences x fragmentation/pacing schedules on a simulated connection against the real Engine.Serve; oracles: handler count/order/content equal generator ground truth, strict independent response reader, hang = simulator deadlock. Exploration is the right level: the space (streams x schedules x configs) is unbounded and the property is about real code paths, which run unmodified.",
    note=SIMNOTE),
+ "C02": dict(engine="wire-sim", ref="DESIGN.md 3 C02", technique="deterministic simulation: the delivery schedule is the variable - reference delivery vs every 2-way split / byte-wise / seeded k-way splits of the same generated stream against the real server, equality oracle + ground truth",
+   text="For each generated stream the simulator owns net.Conn.Read and replays the same bytes under every 2-way split (exhaustive per stream up to the tier limit, boundary-focused above), byte-at-a-time and seeded k-way segmentations; per-request observations and server output must equal the reference delivery, which must equal generator ground truth. Exhaustive per stream over split points, sampled over streams.",
+   note=SIMNOTE + " Server direction; the client direction of this property is exercised by C11's segmentation of responses."),
+ "C13": dict(engine="wire-sim", ref="DESIGN.md 3 C13", technique="deterministic simulation: seeded reader/writer op histories on the real standard.Conn over a simulated socket with fragmentation, EOF/timeout/backpressure/write-error faults, byte-queue reference model stepped per op",
+   text="Seeded exploration of operation histories x fragmentation x fault placement on the real linked-buffer connection; a byte-queue model checks every returned byte, Len(), stability of every peeked slice until the next release, error behaviour and flush delivery.",
+   note=SIMNOTE),
+ "C14": dict(engine="wire-sim", ref="DESIGN.md 3 C14", technique="deterministic simulation: generated consumption programs x body framings x seeded fragmentation against the real streaming server loop with a pipelined probe request; prefix/EOF oracles, blocked read = simulator deadlock, probe-request identity",
+   text="Seeded exploration of (streamed request, handler consumption program, delivery schedule) triples on a simulated connection: bytes read must be a prefix of the body, EOF exactly at its end, a read that waits for bytes beyond the body is reported as a simulator deadlock, and the next handler invocation must be exactly the pipelined probe (bodies include bytes that read as chunk framing plus a request if misparsed) or the connection must be closed. Stop points are exhaustive for bodies up to 64 bytes.",
+   note=SIMNOTE),
 }
 PENDING = {
- "C02": "check not built yet in this session (planned: wire-sim, DESIGN.md 3 C02)",
  "C03": "check not built yet in this session (planned: wire-sim, DESIGN.md 3 C03)",
  "C04": "check not built yet in this session (planned: wire-sim, DESIGN.md 3 C04)",
  "C08": "check not built yet in this session (planned: conc-sim, DESIGN.md 3 C08)",
  "C09": "check not built yet in this session (planned: wire-sim + conc-sim, DESIGN.md 3 C09)",
  "C10": "check not built yet in this session (planned: conc-sim, DESIGN.md 3 C10)",
  "C11": "check not built yet in this session (planned: wire-sim client + e2e, DESIGN.md 3 C11)",
- "C13": "check not built yet in this session (planned: wire-sim conn only, DESIGN.md 3 C13)",
- "C14": "check not built yet in this session (planned: wire-sim, DESIGN.md 3 C14)",
  "C15": "check not built yet in this session (planned: baton-sim, DESIGN.md 3 C15)",
  "C18": "check not built yet in this session (planned: conc-sim, DESIGN.md 3 C18)",
  "C19": "check not built yet in this session (planned: wire-sim, DESIGN.md 3 C19)",
